@@ -201,6 +201,8 @@ def verus_parse(name, ty, closed=True):
            "    %s spec fn wire_len() -> nat { %d }" % (vis, s["wire"]),
            "    %s spec fn parse(b: Seq<u8>) -> Self {" % vis,
            "        %s {" % ty]
+    if any(path.startswith("data_block_id.") for path, _, _ in s["fields"]):
+        out.append("            data_block_id: DataBlockId { data_block_type: b[0], data_name: bytes_at::<3>(b, 1) },")
     for path, kind, off in s["fields"]:
         if "." in path:
             continue
